@@ -12,7 +12,7 @@
     can only be observed with a time limit: that half is carried by the fuzz
     streams of the check (statement kinds of both engines, mutations, random
     bytes, file-system faults through the binary). *)
-From Verif Require Import Model.Compile Proofs.NoPanicFacts.
+From Verif Require Import Model.Compile Proofs.NoPanicFacts Proofs.ResolveNoPanic Proofs.PanicSources.
 Open Scope string_scope.
 Open Scope list_scope.
 
@@ -41,6 +41,35 @@ Proof.
   destruct (string_items (kid "Names" tn)) as [|a [|b [|c [|d l]]]]; exact I.
 Qed.
 Print Assumptions C18_to_column_partial.
+
+(** resolveCatalogRefs (every branch of its switch: comparisons, function calls with positional,
+    cast and named arguments - the index fun.Args[i] panicked before /repo 151ed9c -, SET / INSERT
+    targets, casts - toColumn panicked before cb978d6 -, LIMIT / OFFSET) returns parameters or an
+    error for every catalog, every list of range vars, every reference list and every name table,
+    whatever the trees look like *)
+Theorem C18_resolve_partial : forall e rvs refs names, no_panic (resolve_catalog_refs e rvs refs names).
+Proof. exact resolve_catalog_refs_no_panic. Qed.
+Print Assumptions C18_resolve_partial.
+
+(** What is left of the full statement: the composed model of parseQuery (Model/Compile.v) can
+    panic ONLY where Walk meets an unknown node kind, where the statement's slice of the file is
+    out of range, or inside one of the four walkers over the statement's tree (findParameters,
+    buildQueryCatalog, outputColumns / sourceTables, expand) - whose panic sites are dereferences
+    of list fields (TargetList, FromClause, ValuesLists, Ctes, Alias) that the two parsers always
+    fill in.  Those are exercised, not proved. *)
+Theorem C18_panic_sources_partial : forall e raw src positional,
+  is_panic_r (parse_query e raw src positional) ->
+  walk_ok raw = false
+  \/ is_panic_r (pluck src (int_of "StmtLocation" raw) (int_of "StmtLen" raw))
+  \/ is_panic_r (validate_func_calls e raw)
+  \/ (let raw2 := fst (fst (named_parameters (env_engine e) raw)) in
+      let stmt2 := kid "Stmt" raw2 in
+      is_panic_r (find_parameters stmt2)
+      \/ is_panic_r (build_query_catalog (fuel_of raw) e stmt2)
+      \/ (exists qc, is_panic_r (output_columns (fuel_of raw) e qc stmt2))
+      \/ (exists qc, is_panic_r (expand (fuel_of raw) e qc raw2))).
+Proof. exact parse_query_panic_sources. Qed.
+Print Assumptions C18_panic_sources_partial.
 
 Definition C18_full_statement : Prop :=
   forall e raw src pos, walk_ok raw = true -> no_panic (parse_query e raw src pos).
